@@ -770,6 +770,32 @@ class Generator:
                 if desugar_open:
                     inserts.extend(desugar_open)
                     inserts.append(desugar_close)
+            # R15: closure headers get parameter types, a named result and requires/ensures; the closure
+            # body is copied verbatim inside braces
+            for cs in c.closures:
+                ms = list(re.finditer(cs.regex, txt[b_lo:b_hi], re.S))
+                if len(ms) != 1 or ms[0].lastindex != 2:
+                    raise ToolCondition('lost anchor: %s: closure /%s/ matches %d times (contract %s)' % (addr, cs.regex, len(ms), cs.src))
+                m = ms[0]
+                orig_params = [x.strip().split(':')[0].strip() for x in m.group(1).split(',') if x.strip()]
+                new_params = [x.strip().split(':')[0].strip() for x in split_top_commas(cs.params) if x.strip()]
+                if orig_params != new_params:
+                    raise ToolCondition('%s: closure parameters %s do not match contract %s' % (addr, orig_params, new_params))
+                a, b = b_lo + m.start(), b_lo + m.end()
+                head = '|%s| -> (%s)' % (cs.params, cs.ret)
+                spec = ''
+                if cs.requires:
+                    spec += ' requires ' + ', '.join(cs.requires) + ','
+                if cs.ensures:
+                    spec += ' ensures ' + ', '.join(cs.ensures) + ','
+                pre = txt[a:b_lo + m.start(2)]
+                if not re.match(r'^(move\s+)?\|[^|]*\|\s*$', pre):
+                    raise ToolCondition('%s: closure regex must start at the closure bars: %r' % (addr, pre))
+                mv = 'move ' if pre.startswith('move') else ''
+                inserts.append((a, Seg(keep_newlines(pre, mv + head), 'src'), b_lo + m.start(2)))
+                inserts.append((b_lo + m.start(2), Seg(spec + ' {', 'clause', oid=cs.oid, tags=tuple(cs.tags), ckind='closure', addr=addr), b_lo + m.start(2)))
+                inserts.append((b, Seg(' }', 'src'), b))
+                self.rules.hit('R15')
             # proof splices
             for pf in c.proofs:
                 seg = Seg('\n' + pf.text.rstrip('\n') + '\n', 'proof', oid=pf.oid, tags=tuple(pf.tags), ckind='proof', addr=addr)
